@@ -437,6 +437,24 @@ impl<E: Effect> Environment<E> {
         }
     }
 
+    /// Verification hook: a copy of the resource ownership table.
+    #[cfg(feature = "verif")]
+    pub fn verif_resource_ownership(&self) -> HashMap<ResourceId, ProcessId> {
+        self.resource_ownership.clone()
+    }
+
+    /// Verification hook: which worker hosts each process.
+    #[cfg(feature = "verif")]
+    pub fn verif_process_router(&self) -> HashMap<ProcessId, WorkerId> {
+        self.process_router.clone()
+    }
+
+    /// Verification hook: awaiters whose initial multi-worker answer is still being collected.
+    #[cfg(feature = "verif")]
+    pub fn verif_pending_awaiters(&self) -> Vec<ProcessId> {
+        self.pending_awaits.keys().copied().collect()
+    }
+
     /// Process events from workers, route actions
     /// Returns true if work was done, false if idle
     pub fn step(&mut self) -> Result<bool, EnvironmentError> {
